@@ -418,6 +418,21 @@ def view_cases(tier):
         cases.append(VCase("functional.movedim", {"op": "functional.movedim", "shape": (2, 3, 4), "source": s, "destination": d,
                                                   "self_inverse": _move_self_inverse(3, s, d)},
                            [Leaf("a", (2, 3, 4))], lambda T, K, s=s, d=d: f.movedim(T["a"], s, d), functions=fns))
+    # tuple forms exhaustively for rank 3: every ordered choice of 2 (and 3) distinct source dims x every ordered choice of destinations (the order in which the pairs are
+    # spelled must not matter: only which source goes to which destination), plus negative spellings in thorough
+    import itertools as _it
+    done = {((0, 1), (1, 2)), ((0, 2), (2, 0)), ((0, 1, 2), (2, 0, 1))}
+    for r in (2, 3):
+        for s in _it.permutations(range(3), r):
+            for d in _it.permutations(range(3), r):
+                if (s, d) in done or (tier != "thorough" and r == 3 and (sum(s) * 7 + sum(x * y for x, y in zip(s, d))) % 3):
+                    continue
+                cases.append(VCase("functional.movedim", {"op": "functional.movedim", "shape": (2, 3, 4), "source": s, "destination": d, "self_inverse": _move_self_inverse(3, s, d)},
+                                   [Leaf("a", (2, 3, 4))], lambda T, K, s=s, d=d: f.movedim(T["a"], s, d), functions=fns))
+    for s, d in [((0, -1), (-1, 0)), ((-3, 1), (1, -3)), ((2, 0), (-2, -1))] + ([((0, 1), (3, 0)), ((3, 1), (0, 2))] if tier == "thorough" else []):
+        shape = (2, 3, 4) if max(max(s), max(d)) < 3 else (2, 3, 1, 2)
+        cases.append(VCase("functional.movedim", {"op": "functional.movedim", "shape": shape, "source": s, "destination": d, "self_inverse": _move_self_inverse(len(shape), s, d)},
+                           [Leaf("a", shape)], lambda T, K, s=s, d=d: f.movedim(T["a"], s, d), functions=fns))
     cases.append(VCase("Tensor.moveaxis", {"op": "Tensor.moveaxis", "shape": (2, 3, 4), "source": 2, "destination": 0, "self_inverse": False},
                        [Leaf("a", (2, 3, 4))], lambda T, K: T["a"].moveaxis(2, 0)))
     fns = (FN + "transpose", K_ + "transpose_forward", K_ + "transpose_backward")
